@@ -11,6 +11,8 @@ LEAVES = [
     {"k": "leaf", "kind": ".E1", "ports": [{"n": "a", "w": 2}, {"n": "b", "w": 1}], "params": [], "py": {"k": "ext", "name": "E1"}},
     {"k": "leaf", "kind": ".E2", "ports": [{"n": "p", "w": 1}, {"n": "q", "w": 3}, {"n": "r", "w": 1}], "params": [["m", "I:2"]],
      "py": {"k": "ext", "name": "E2", "params": {"m": 2}}},
+    {"k": "leaf", "kind": "vendor_b.E1", "ports": [{"n": "x", "w": 1}, {"n": "y", "w": 2}, {"n": "z", "w": 1}], "params": [],
+     "py": {"k": "ext", "name": "E1", "domain": "vendor_b"}},
     {"k": "leaf", "kind": "vlsir.primitives.resistor", "ports": [{"n": "p", "w": 1}, {"n": "n", "w": 1}], "params": [["r", "P:5"]],
      "py": {"k": "prim", "name": "R", "params": {"r": 5}}},
     {"k": "leaf", "kind": "vlsir.primitives.capacitor", "ports": [{"n": "p", "w": 1}, {"n": "n", "w": 1}], "params": [["c", "P:1/1000"]],
